@@ -30,11 +30,32 @@
                                 pairwise related in turn (same_f) - i.e. identical except comments and what cmp never reads:
                                 element type, file membership, parent.  Hypotheses: the three name tables are injective and
                                 float bit patterns are below 2^64.
+   Heap level (Tree/SortProofsLocal.v, SortProofsCanon.v, SortProofsCore.v, SortProofsHist.v); the tree-shape facts are DERIVED from
+   C03's Core invariant, which every world reachable by a history satisfies (C03_reachable_core):
+   [U] C14_cmp_structural       Element::cmp reads nothing but the structure: on twins (twin_f: same names, types, attributes,
+                                values, sub-elements pairwise, in two worlds) it returns the same result
+   [U] C14_children_first       the world Element::sort returns is sorted_f: every reorderable content list is sorted by (position,
+                                Element::cmp) AS EVALUATED IN THE RESULT - true because every child is sorted before the siblings
+                                are compared (the order the code uses; sorting the children afterwards - the seeded change
+                                C14-sort-children-after-siblings - compares stale keys)
+   [U] C14_idempotent           sort (sort w) = sort w as worlds (weq: same w_next, every node equal), result OK
+   [U] C14_canonical_form       two worlds with the same nodes that differ only by the order of the children of reorderable nodes
+                                (perm_equiv; same_shape) sort to TWINS at every depth: same names, types, attributes, values at
+                                every position - only ids of cmp-Equal siblings may be swapped, comments are not compared.
+                                Hypotheses: Core, TypeDet (the type of a sub-element is determined by parent type and name), U64
+                                (float bits < 2^64), injective name tables.  C14_canonical_nonvacuous: all of them hold for a
+                                world built by a history and its permuted copy, and the theorem applies.
+   [U] C14_never_fails_core     C14_never_fails with the rank derived from Core: hypotheses Core + SpecKids
+   [U] C14_never_fails_histories  in every world reached from the empty world by a history of operations (any tables) that satisfies
+                                SpecKids, sort of any element returns OK and keeps SpecKids.  [P]: SpecKids (every child findable in
+                                its parent's type under u32::MAX, spec lookups of node types do not panic, names in their tables)
+                                is not proved to be kept by the 26 operations; it is decidable: C14_spec_kids_decidable.
    [F] C14_cmp_cyclic_refuted   the comparison BEFORE fix 4192043 (policy_v0) ordered a2 < a10 < a1b < a2 (tiny tables)
    [F] C14_v0_skipped_stage_refuted, C14_v0_nan_refuted   the two other defects before fixes 9393763 and 637b913 *)
 From Coq Require Import Permutation.
 From AV Require Import Base.Bytes Base.Outcome Hash.HashModel Tree.Heap Tree.Ops Tree.Script Tree.Sort Tree.SortTiny
-  Tree.SortProofsOrder Tree.SortProofsCmp Tree.SortProofsHeap Tree.SortProofsV0 Tree.SortProofsMain Tree.SortProofsNames.
+  Tree.SortProofsOrder Tree.SortProofsCmp Tree.SortProofsHeap Tree.SortProofsV0 Tree.SortProofsMain Tree.SortProofsNames
+  Tree.Inv Tree.SortProofsLocal Tree.SortProofsCanon Tree.SortProofsCore Tree.SortProofsHist.
 Open Scope list_scope.
 Open Scope N_scope.
 
@@ -125,3 +146,63 @@ Theorem C14_v0_nan_refuted :
   SortTiny.cmp policy_v0 SortTiny.floats 1 4 = Val Eq /\ SortTiny.cmp policy_v0 SortTiny.floats 4 7 = Val Eq /\
   SortTiny.cmp policy_v0 SortTiny.floats 1 7 = Val Gt.
 Proof. exact v0_nan_not_transitive. Qed.
+
+(* ------------------------------------------------------------------ heap level *)
+Theorem C14_cmp_structural : forall T tab_el tab_at tab_en name_index name_definition_ref pol u v f a a' b b',
+  twin_f u v (S f) a a' -> twin_f u v (S f) b b' ->
+  cmp_f T tab_el tab_at tab_en name_index name_definition_ref pol u f a b =
+  cmp_f T tab_el tab_at tab_en name_index name_definition_ref pol v f a' b'.
+Proof. exact cmp_twin. Qed.
+
+Theorem C14_children_first : forall T tab_el tab_at tab_en name_index name_definition_ref srt,
+  StableSort srt -> forall i w r w', Core w ->
+  e_sort_with T tab_el tab_at tab_en name_index name_definition_ref srt i w = Val (r, w') ->
+  sorted_f T tab_el tab_at tab_en name_index name_definition_ref (fuel_of w) w' i.
+Proof. exact e_sort_sorted. Qed.
+
+Theorem C14_idempotent : forall T tab_el tab_at tab_en name_index name_definition_ref srt,
+  StableSort srt -> forall i w r w1 r2 w2, Core w ->
+  e_sort_with T tab_el tab_at tab_en name_index name_definition_ref srt i w = Val (r, w1) ->
+  e_sort_with T tab_el tab_at tab_en name_index name_definition_ref srt i w1 = Val (r2, w2) ->
+  weq w1 w2 /\ r2 = OK tt.
+Proof. exact e_sort_idempotent. Qed.
+
+Theorem C14_canonical_form : forall T tab_el tab_at tab_en name_index name_definition_ref srt,
+  StableSort srt ->
+  (forall x y s, to_str tab_el x = Some s -> to_str tab_el y = Some s -> x = y) ->
+  (forall x y s, to_str tab_at x = Some s -> to_str tab_at y = Some s -> x = y) ->
+  (forall x y s, to_str tab_en x = Some s -> to_str tab_en y = Some s -> x = y) ->
+  forall i u v u1 v1, Core u -> same_shape u v -> TypeDet u -> U64 u -> perm_equiv T u v i ->
+  e_sort_with T tab_el tab_at tab_en name_index name_definition_ref srt i u = Val (OK tt, u1) ->
+  e_sort_with T tab_el tab_at tab_en name_index name_definition_ref srt i v = Val (OK tt, v1) ->
+  forall f, twin_f u1 v1 f i i.
+Proof. exact e_sort_canonical. Qed.
+
+Theorem C14_canonical_nonvacuous :
+  Core Ex.u /\ same_shape Ex.u Ex.v /\ TypeDet Ex.u /\ U64 Ex.u /\ perm_equiv SortTiny.tiny Ex.u Ex.v 0 /\
+  SpecKids SortTiny.tiny SortTiny.tiny_el SortTiny.tiny_at SortTiny.tiny_en Ex.u /\
+  Ex.sort_ex Ex.u = Val (OK tt, Ex.u1) /\ Ex.sort_ex Ex.v = Val (OK tt, Ex.v1) /\
+  (forall f, twin_f Ex.u1 Ex.v1 f 0 0) /\
+  option_map n_content (w_nodes Ex.u 0) = Some [CElem 1; CElem 3; CElem 5] /\
+  option_map n_content (w_nodes Ex.v 0) = Some [CElem 5; CElem 1; CElem 3].
+Proof.
+  exact (conj Ex.u_core (conj Ex.uv_same_shape (conj Ex.u_typedet (conj Ex.u_u64 (conj Ex.uv_perm_equiv (conj Ex.u_spec_kids
+        (conj Ex.u1_runs (conj Ex.v1_runs (conj Ex.uv_twins (conj eq_refl eq_refl)))))))))).
+Qed.
+
+Theorem C14_never_fails_core : forall T tab_el tab_at tab_en name_index name_definition_ref srt,
+  StableSort srt -> forall i w, Core w -> SpecKids T tab_el tab_at tab_en w -> (exists n, w_nodes w i = Some n) ->
+  exists w', e_sort_with T tab_el tab_at tab_en name_index name_definition_ref srt i w = Val (OK tt, w').
+Proof. exact e_sort_total_core. Qed.
+
+Theorem C14_never_fails_histories : forall T tab_el tab_at tab_en name_index name_definition_ref srt,
+  StableSort srt -> forall check_fn LATEST root_attrs (l : list op) w,
+  Inv.run_ops T tab_el tab_en check_fn LATEST root_attrs l empty_world = Val w ->
+  SpecKids T tab_el tab_at tab_en w -> forall i, (exists n, w_nodes w i = Some n) ->
+  exists w', e_sort_with T tab_el tab_at tab_en name_index name_definition_ref srt i w = Val (OK tt, w') /\
+             SpecKids T tab_el tab_at tab_en w'.
+Proof. exact never_fails_histories. Qed.
+
+Theorem C14_spec_kids_decidable : forall T tab_el tab_at tab_en w,
+  alloc_bound w -> spec_kids_b T tab_el tab_at tab_en w = true -> SpecKids T tab_el tab_at tab_en w.
+Proof. exact spec_kids_b_sound. Qed.
